@@ -5,8 +5,9 @@
    valuation), zero its zero byte.  Model: Model/ByteVecModel.v (bytevec.py branch by
    branch) and Model/ByteVecHeapModel.v (object store); spec: Spec/ByteVecSpec.v. *)
 From Coq Require Import List Arith Bool.
-From HV Require Import Spec.ByteVecSpec Model.ByteVecModel Model.ByteVecHeapModel
-  Proofs.ByteVecProofs Proofs.ByteVecHeapProofs.
+From HV Require Import Spec.ByteVecSpec Spec.MemSpec Model.ByteVecModel Model.ByteVecHeapModel
+  Model.MemOpsModel Proofs.ByteVecProofs Proofs.ByteVecSugarProofs Proofs.ByteVecHeapProofs
+  Proofs.MemOpsProofs.
 Import ListNotations.
 
 (* ---- the main theorem: EVERY sequence of operations (append, set_byte, set_slice,
@@ -101,33 +102,45 @@ Proof. exact get_word_correct. Qed.
 Print Assumptions C07_get_word.
 
 (* ---- the __setitem__ sugar  v[start:stop] = value  (start = key.start or 0,
-   stop = key.stop or self.length) ---- *)
-
-(* it is the flat slice assignment whenever the stop bound is not an explicit 0 ... *)
-Theorem C07_setitem_partial :
+   stop = key.stop if key.stop is not None else self.length; the two bound expressions
+   are regenerated from bytevec.py into Gen/GenByteVecSugar.v): it is the flat slice
+   assignment for EVERY pair of optional bounds, an explicit stop of 0 included (formerly
+   finding C07-F1, `key.stop or self.length`, repaired by d2d37fe) ---- *)
+Theorem C07_setitem :
   forall (B : Type) (zero : B) (v : bvec B) (start stop : option nat) (val : chunk B),
-    wf v -> wfc val -> stop <> Some 0 ->
+    wf v -> wfc val ->
     match fa_setitem B zero (flat v) start stop (cflat val) with
     | Some l' =>
         exists v' : bvec B,
           setitem_slice B zero v start stop val = Some v' /\ wf v' /\ flat v' = l'
     | None => setitem_slice B zero v start stop val = None
     end.
-Proof. exact setitem_partial. Qed.
-Print Assumptions C07_setitem_partial.
+Proof. exact setitem_correct. Qed.
+Print Assumptions C07_setitem.
 
-(* ... and NOT for an explicit stop of 0, which Python's `or` turns into the length:
-   v[2:0] = [8; 9] on [1; 2; 3; 4] is accepted and overwrites [2, 4), where the flat
-   array rejects the write (stop < start).  Genuine defect of halmos (finding C07-F1). *)
-Theorem C07_setitem_refuted :
+(* on the former counterexample: v[2:0] = [8; 9] on [1; 2; 3; 4] is rejected like the flat
+   write, v[0:0] = [] is the no-op, and an omitted stop still means "to the end" *)
+Example C07_setitem_nonvacuous :
   let v : bvec nat := run_ops 0 [OAppend (wrap false [1; 2; 3; 4])] in
-  let val : chunk nat := wrap false [8; 9] in
-  wf v /\ wfc val /\
-  fa_setitem nat 0 (flat v) (Some 2) (Some 0) (cflat val) = None /\
-  exists v', setitem_slice nat 0 v (Some 2) (Some 0) val = Some v' /\
-             flat v' = [1; 2; 8; 9] /\ flat v' <> flat v.
-Proof. exact setitem_witness. Qed.
-Print Assumptions C07_setitem_refuted.
+  wf v /\
+  fa_setitem nat 0 (flat v) (Some 2) (Some 0) [8; 9] = None /\
+  setitem_slice nat 0 v (Some 2) (Some 0) (wrap false [8; 9]) = None /\
+  fa_setitem nat 0 (flat v) (Some 0) (Some 0) [] = Some [1; 2; 3; 4] /\
+  setitem_slice nat 0 v (Some 0) (Some 0) (wrap false []) = Some v /\
+  (exists v', setitem_slice nat 0 v (Some 1) None (wrap false [7; 8; 9]) = Some v' /\
+              flat v' = [1; 7; 8; 9]) /\
+  flat (getitem_slice nat 0 v (Some 1) (Some 0)) = [] /\
+  flat (getitem_slice nat 0 v None (Some 6)) = [1; 2; 3; 4; 0; 0].
+Proof. exact setitem_stop0_example. Qed.
+
+(* the read sugar  v[start:stop]  is the flat slice read with optional bounds *)
+Theorem C07_getitem :
+  forall (B : Type) (zero : B) (v : bvec B) (start stop : option nat),
+    wf v ->
+    wf (getitem_slice B zero v start stop) /\
+    flat (getitem_slice B zero v start stop) = fa_getitem B zero (flat v) start stop.
+Proof. exact getitem_correct. Qed.
+Print Assumptions C07_getitem.
 
 (* ---- the flat array of the specification reads as zero beyond its end and its length
    is the highest offset written (pointwise reading of Spec/ByteVecSpec.v) ---- *)
@@ -153,6 +166,128 @@ Theorem C07_spec_set_byte :
     nth i (fa_set_byte B zero l off x) zero = (if i =? off then x else nth i l zero).
 Proof. exact spec_set_byte_pointwise. Qed.
 Print Assumptions C07_spec_set_byte.
+
+(* ---- how sevm.py drives the byte sequences: the memory instructions and the memory side
+   of message calls (Model/MemOpsModel.v, whose offset/size wiring is regenerated from
+   sevm.py / contract.py into Gen/GenMemWire.v, Gen/GenCodeSlice.v) against the EVM
+   semantics on flat arrays (Spec/MemSpec.v) ---- *)
+
+(* EVERY sequence of MSTORE / MSTORE8 / MLOAD+MSTORE / CALLDATACOPY / CODECOPY /
+   EXTCODECOPY (account with or without code) / RETURNDATACOPY / MCOPY, message calls
+   (arguments read from memory, a callee running its own sequence on a fresh memory,
+   RETURN data, copy of min(out size, returned) bytes into the caller's memory, the
+   returndata buffer) and creations (init code read from memory, run with an empty
+   calldata; the creator's memory untouched, returndata empty unless the init code
+   reverts), from any well-formed frame (a creation frame included): the memory and returndata sequences stay
+   well-formed and denote exactly the flat EVM memory / returndata; the frame halts exactly
+   when the EVM halts (RETURNDATACOPY beyond the buffer, also for size 0); no Python
+   exception (set_slice's ValueError, an assert) escapes *)
+Theorem C07_memops :
+  forall (B : Type) (zero : B) (e : menv B) (ops : list (mop B)) (st : mframe B),
+    wf_env e -> wf_frame st -> Forall mop_ok ops ->
+    match f_run B zero (abs_env e) (abs_frame st) (map abs_mop ops) with
+    | Some fst =>
+        exists st' : mframe B,
+          m_run zero e st ops = ROk st' /\ wf_frame st' /\ abs_frame st' = fst
+    | None => m_run zero e st ops = RHalt
+    end.
+Proof. exact m_run_correct. Qed.
+Print Assumptions C07_memops.
+
+(* the code a creation deploys is what its init code (mem[loc, loc + size), run on an empty
+   memory with an EMPTY calldata) returns; nothing is deployed exactly when it halts *)
+Theorem C07_created_code :
+  forall (B : Type) (zero : B) (mem : bvec B) (loc size : nat) (body : list (mbop B)) (roff rsize : nat),
+    wf mem -> Forall mbop_ok body ->
+    match init_returns B zero (flat mem) loc size (map abs_mbop body) roff rsize with
+    | Some c =>
+        exists v : bvec B,
+          m_created zero mem loc size body roff rsize = ROk (Some v) /\ wf v /\ flat v = c
+    | None => m_created zero mem loc size body roff rsize = ROk None
+    end.
+Proof. exact created_correct. Qed.
+Print Assumptions C07_created_code.
+
+(* the (start, size) wrappers over ByteVec.slice(start, stop) / set_slice(start, stop, _) *)
+Theorem C07_mslice :
+  forall (B : Type) (zero : B) (mem : bvec B) (loc size : nat),
+    wf mem ->
+    wf (mslice zero mem loc size) /\
+    flat (mslice zero mem loc size) = read_padded B zero (flat mem) loc size /\
+    blen (mslice zero mem loc size) = size.
+Proof. exact mslice_correct. Qed.
+Print Assumptions C07_mslice.
+
+Theorem C07_set_mslice :
+  forall (B : Type) (zero : B) (mem : bvec B) (loc : nat) (data : bvec B),
+    wf mem -> wf data ->
+    exists m' : bvec B,
+      set_mslice zero mem loc data = Some m' /\ wf m' /\
+      flat m' = mem_write B zero (flat mem) loc (flat data).
+Proof. exact set_mslice_correct. Qed.
+Print Assumptions C07_set_mslice.
+
+(* Contract.slice(start, size), with its fast path over the concrete prefix *)
+Theorem C07_contract_slice :
+  forall (B : Type) (zero : B) (code : bvec B) (start size : nat),
+    wf code ->
+    wf (contract_slice zero code start size) /\
+    flat (contract_slice zero code start size) = read_padded B zero (flat code) start size.
+Proof. exact contract_slice_correct. Qed.
+Print Assumptions C07_contract_slice.
+
+(* copy_returndata_to_memory: the first min(ret_size, len) bytes, by slice or -- when all of
+   it is wanted -- by handing over the returndata object itself *)
+Theorem C07_copy_returndata :
+  forall (B : Type) (zero : B) (rd : bvec B) (ret_loc ret_size : nat) (mem : bvec B),
+    wf rd -> wf mem ->
+    exists m' : bvec B,
+      copy_returndata_to_memory zero rd ret_loc ret_size mem = Some m' /\ wf m' /\
+      flat m' = mem_write B zero (flat mem) ret_loc
+                  (firstn (Nat.min ret_size (length (flat rd))) (flat rd)).
+Proof. exact copy_returndata_correct. Qed.
+Print Assumptions C07_copy_returndata.
+
+(* MSIZE: the length (highest offset written) rounded up to a multiple of 32 *)
+Theorem C07_msize :
+  forall (B : Type) (mem : bvec B), wf mem -> msize mem = round32 (length (flat mem)).
+Proof. exact msize_correct. Qed.
+Print Assumptions C07_msize.
+
+(* pointwise reading of the copy specification: a copy of size > 0 bytes grows the array
+   to loc + size if needed, [loc, loc + size) holds src from off (zero beyond its end),
+   every other byte is unchanged; a copy of 0 bytes changes nothing (no growth) *)
+Theorem C07_spec_mem_copy :
+  forall (B : Type) (zero : B) (mem : list B) (loc : nat) (src : list B) (off size i : nat),
+    (0 < size ->
+     length (mem_copy B zero mem loc src off size) = Nat.max (length mem) (loc + size) /\
+     nth i (mem_copy B zero mem loc src off size) zero =
+       (if (loc <=? i) && (i <? loc + size) then nth (off + (i - loc)) src zero else nth i mem zero)) /\
+    mem_copy B zero mem loc src off 0 = mem.
+Proof. exact spec_mem_copy. Qed.
+Print Assumptions C07_spec_mem_copy.
+
+Theorem C07_spec_round32 :
+  forall n : nat, n <= round32 n /\ round32 n < n + 32 /\ round32 n mod 32 = 0.
+Proof. exact round32_spec. Qed.
+Print Assumptions C07_spec_round32.
+
+(* a frame whose code has a concrete prefix (fast path of Contract.slice) and a symbolic
+   tail, a call whose callee copies its calldata and code and returns a window of its
+   memory, RETURNDATACOPY, an overlapping MCOPY, EXTCODECOPY of an account without code,
+   a size-0 copy, a word moved with MLOAD/MSTORE, a creation whose init code (6 bytes of
+   the memory) copies its empty calldata and its own code and reverts with 7 bytes;
+   RETURNDATACOPY beyond the buffer halts *)
+Example C07_memops_nonvacuous :
+  wf_env ex_env /\ Forall mop_ok ex_ops /\
+  (exists st, m_run 0 ex_env (MF empty empty) ex_ops = ROk st /\
+     flat (m_mem st) =
+       [0; 0; 2; 2; 3; 4; 51; 52; 0; 0; 12; 0; 0; 0; 15; 60; 61; 0; 0; 0; 51; 52; 23; 24; 0; 0; 0; 0; 0; 0;
+        0; 0; 99; 0; 0; 0; 0; 0; 0; 0;
+        51; 52; 23; 24; 0; 0; 0; 0; 0; 0; 0; 0; 99; 0; 0; 0; 0; 0; 0; 0; 0; 0; 0; 0; 0; 0; 0; 0; 0; 0; 0; 0] /\
+     flat (m_rd st) = [0; 0; 0; 2; 3; 4; 51]) /\
+  m_run 0 ex_env (MF empty empty) [MB (MRetCopy 0 1 0)] = RHalt.
+Proof. exact memops_example. Qed.
 
 (* ---- copies (object-store layer) ---- *)
 
